@@ -322,7 +322,16 @@ func runMain(args []string) int {
 					model = s
 				}
 			}
-			vs = append(vs, core.Violation{Kind: "crash", Model: model, Detail: r.crash})
+			kind := "crash"
+			switch {
+			case strings.Contains(r.crash, "WARNING: DATA RACE"):
+				kind = "data-race"
+			case strings.Contains(r.crash, "AddressSanitizer"):
+				kind = "asan-report"
+			case strings.Contains(r.crash, "deadlock"):
+				kind = "deadlock"
+			}
+			vs = append(vs, core.Violation{Kind: kind, Model: model, Detail: r.crash})
 		}
 		for _, v := range vs {
 			totalViol++
